@@ -31,7 +31,9 @@ CondKinds == {"if", "elif"}
 OpenKinds == {"if", "ifdef", "ifndef"}
 ElifKinds == {"elif", "elifdef", "elifndef"}
 PlainKinds == {"ifdef", "ifndef", "elifdef", "elifndef", "else", "endif",
-               "text", "def0", "def1", "undef", "warn", "err", "inc", "inc2", "push", "pop"}
+               "text", "def0", "def1", "undef", "warn", "err", "inc", "inc2", "push", "pop", "noise"}
+\* "noise": a line with no effect at all (comment in any shape, the null directive, a declaration-free
+\*          line of literals); it exists to exercise the line scanner inside kept and skipped groups
 \* "inc"  : #include of a file with one declaration
 \* "inc2" : #include of a file that says  #ifdef M / #pragma once / #endif  before its declaration
 \* "push"/"pop" : #pragma push_macro("M") / pop_macro("M")
@@ -117,6 +119,7 @@ RefStep(l) ==
          /\ rout' = IF RActive /\ ~ronce THEN Append(rout, <<Pos, "inc2">>) ELSE rout
          /\ ronce' = IF RActive /\ ~ronce THEN rdef # -1 ELSE ronce
          /\ UNCHANGED <<rstack, rdef, rev, rpush>>
+    [] l.k = "noise" -> UNCHANGED <<rstack, rdef, rout, rev, rpush, ronce>>
     [] l.k = "push" ->
          /\ rpush' = IF RActive THEN Append(rpush, rdef) ELSE rpush
          /\ UNCHANGED <<rstack, rdef, rout, rev, ronce>>
@@ -153,6 +156,7 @@ MechStep(l) ==
            /\ mout' = IF ~monce THEN Append(mout, <<Pos, "inc2">>) ELSE mout
            /\ monce' = IF ~monce THEN mdef # -1 ELSE monce
            /\ UNCHANGED <<mode, level, celifs, mdef, mev, mpush>>
+      [] l.k = "noise" -> UNCHANGED <<mode, level, celifs, mdef, mout, mev, mpush, monce>>
       [] l.k = "push" -> mpush' = Append(mpush, mdef) /\ UNCHANGED <<mode, level, celifs, mdef, mout, mev, monce>>
       [] l.k = "pop" ->
            /\ mdef' = IF mpush # <<>> THEN mpush[Len(mpush)] ELSE mdef
